@@ -78,6 +78,25 @@ def nontrivial(cur, curo):
     return any(l.startswith("pa ") for l in cur)
 
 
+def _locked(fn):
+    """One C10 run at a time: the generated table lean/IstioModel/Generated/C10Chains.lean and work/C10 are
+    shared between concurrent invocations (also VERIF_REPO=<scratch> ones); serialise them with a file lock."""
+    import fcntl
+    import functools
+
+    @functools.wraps(fn)
+    def wrapper(ctx, *a):
+        os.makedirs(ctx.work, exist_ok=True)
+        with open(os.path.join(ctx.work, ".lock"), "w") as lk:
+            fcntl.flock(lk, fcntl.LOCK_EX)
+            try:
+                return fn(ctx, *a)
+            finally:
+                fcntl.flock(lk, fcntl.LOCK_UN)
+    return wrapper
+
+
+@_locked
 def run(ctx):
     ctx.rule = ("cases = 0-6 PeerAuthentication policies (mesh / namespace / workload-selector / port-level; modes UNSET, "
                 "DISABLE, PERMISSIVE, STRICT and nil; creation times from a 3-value pool, one case in four with a single "
@@ -86,7 +105,9 @@ def run(ctx):
                 "input) followed by 1-3 workload queries (labels aimed at a selector policy two times in three) over ports "
                 "{80, 8080, 9000, 7777} (stream compose: all resolvers + client decision; stream ambient: attached ztunnel policies + "
                 "direct calls of the hooked conversion functions on arbitrary arguments; stream inbound: the real virtualInbound "
-                "listener of a sidecar with services on 80 HTTP / 8080 TCP / 9090 auto); plus the 12 (mode, protocol) rows of the "
+                "listener of a sidecar with services on 80 HTTP / 8080 TCP / 9090 auto / service port 81 -> target port 8081, one case in three "
+                "with a Sidecar whose ingress listeners (some with user TLS) replace the service chains); client decision on the real "
+                "selectAuthnPolicies view for a random client namespace / imported namespaces); plus the 12 (mode, protocol) rows of the "
                 "real filter-chain table; distinct = hash of (ops, implementation outputs); non-trivial = at least one policy")
     ctx.assumptions = [
         "(namespace, name) identifies a PeerAuthentication (hypothesis UniqueKeys of the theorems; true for Kubernetes resources)",
@@ -151,6 +172,7 @@ def run(ctx):
                 report(ctx, stream, tmp, bad)
 
 
+@_locked
 def replay(ctx, path):
     import json
     obj = json.load(open(path))
@@ -159,7 +181,7 @@ def replay(ctx, path):
     stream = rep.get("stream") or (rep.get("extra") or {}).get("stream") or "compose"
     if not ops:
         ctx.log("replay file has no ops; re-running the full check")
-        return run(ctx)
+        return run.__wrapped__(ctx)
     if not (ctx.build_drv() and ctx.go_build()):
         return
     p = os.path.join(ctx.work, "replay.ops")
@@ -182,24 +204,30 @@ def replay(ctx, path):
 
 MANIFEST = {
     "level_text": ("Lean 4 proof: the PeerAuthentication precedence code (sort by creation time, namespace/mesh singleton, selector "
-                   "matching, ComposePeerAuthentication, GetMutualTLSModeForPort, GetNamespaceMutualTLSMode, checkMtlsEnabled), the "
-                   "inbound filter-chain table and virtualInbound listener, and the ambient conversion (fetchPeerAuthentications, "
+                   "matching, ComposePeerAuthentication, GetMutualTLSModeForPort, GetNamespaceMutualTLSMode, FilterPeerAuthenticationNamespaces, "
+                   "checkMtlsEnabled), the inbound filter-chain table and the filter chains of the virtualInbound listener (service and "
+                   "Sidecar-ingress chain configs, target ports, passthrough), and the ambient conversion (fetchPeerAuthentications, "
                    "convertedSelectorPeerAuthentications, convertPeerAuthentication, PeerAuthDerivedPolicies) are modelled exactly. "
-                   "Proved for all policy lists, workloads and ports: compose_eq_spec (resolver = declarative effectiveMode, ties by "
-                   "the real comparator), namespace_mode_agrees, client_agrees, order independence, inbound_enforces / "
-                   "inbound_listener_enforces (every destination port, service or not), ambient_strict_exact (ztunnel rejects an "
-                   "unauthenticated peer iff the effective mode is STRICT, for every krt enumeration order), "
-                   "ambient_never_rejects_authenticated. Tied to /repo on every run by three line-by-line differentials against the "
-                   "real functions (incl. the real LDS generator and the real ambient PolicyCollections) and one regenerated table."),
+                   "Proved for all policy lists, workloads and ports: compose_eq_spec (resolver = declarative effectiveMode, ties by the "
+                   "real comparator), namespace_mode_agrees, client_agrees(_scoped: on the per-proxy filtered view), order independence, "
+                   "inbound_enforces / inbound_listener_enforces (the filter chains Envoy selects for any destination port admit plaintext "
+                   "iff not STRICT, terminate mutual TLS iff not DISABLE, all terminate mutual TLS under STRICT; one-way TLS only for user "
+                   "TLS on a Sidecar ingress listener under DISABLE), ambient_strict_exact (ztunnel rejects an unauthenticated peer iff the "
+                   "effective mode is STRICT, for every krt enumeration order), no_dangling, ambient_never_rejects_authenticated. The "
+                   "enforcement claims are about filter-chain matches, transport sockets and ztunnel policies as modelled from "
+                   "documentation; listener filters (TLS/HTTP inspectors) and TLS context contents are not modelled. Tied to /repo on every "
+                   "run by three line-by-line differentials against the real functions (incl. the real LDS generator, selectAuthnPolicies, "
+                   "buildWorkloadPolicies and PolicyCollections) and one regenerated table."),
     "level_note": ("Trusted: Lean kernel + {propext, Classical.choice, Quot.sound}; the hand-written model (tied by differential testing: "
                    "~40500 cases quick, ~610000 thorough, plus a 16-row generated table proved equal by decide); four verif-tagged "
                    "accessor files zz_verif_c10.go; Envoy filter-chain selection and ztunnel DENY-policy semantics are Lean definitions "
                    "written from documentation (no data-plane binary). Hypotheses: (namespace,name) unique, port-level settings are a map, "
-                   "no port-level entry for port 0, no waypoint service namespaces in the theorems (T-diff only). Not modelled: TLS context "
-                   "contents beyond require_client_certificate, listener filters, HBONE, Sidecar-ingress user TLS, DestinationRule subsets. "
-                   "Five defects of the pinned tree (F2, F3, F10, F11, F12) were repaired by fix: commits; their witnesses stay in the corpus "
-                   "and as ..._witness_unfixed theorems."),
-    "technique": ("Lean 4 theorems over an exact model (precedence resolvers, filter-chain table, ambient conversion) + differential "
-                  "correspondence with the real Go functions + kernel-checked generated table + independent property oracle"),
+                   "no port-level entry for port 0, endpoint namespace kept by the client's sidecar scope, no waypoint service namespaces "
+                   "in the theorems (T-diff only). Not modelled: listener filters (TLS/HTTP inspector enablement), TLS context contents "
+                   "beyond require_client_certificate + validation context present, HBONE, gateways, MUTUAL user TLS, DestinationRule "
+                   "subsets. Five defects of the pinned tree (F2, F3, F10, F11, F12) were repaired by fix: commits; their witnesses stay in "
+                   "the corpus and as ..._witness_unfixed theorems."),
+    "technique": ("Lean 4 theorems over an exact model (precedence resolvers, filter-chain table and listener, ambient conversion) + "
+                  "differential correspondence with the real Go functions + kernel-checked generated table + independent property oracle"),
     "design_ref": "DESIGN.md section 5 C10",
 }
